@@ -253,7 +253,10 @@ def run():
              'from._x', 'to.pub._x', '"{0._x}".format(from)', 'from.pub.value == to.pub.value',
              'prev', 'zz', 'zz.pub', 'zz._x', 'prev.value', 'len(lst)', 'len(lst) == 2', 'len',
              'hasattr(s, "_x")', 'hasattr(from, "_x") and hasattr(to, "_x")', 'isinstance(s, str)', 'hasattr', 'isinstance',
-             'callable(s)', 'issubclass', 'getattr(from, "_x")', 'from._x == to._x', 'from.pub._x']
+             'callable(s)', 'issubclass', 'getattr(from, "_x")', 'from._x == to._x', 'from.pub._x',
+             # look-alikes of the underscore (full-width and presentation forms: NFKC maps them to "_") and of letters
+             's.\uff3fx', 's.\ufe33x', 's.\ufe4dx', 's.\uff3f_class__', 'from.\uff3fx', 's.pub.\uff3fx', 's.\u2017x',
+             '\uff3fx', 's.\uff3f\uff3fdict\uff3f\uff3f', 'lst[0].\uff3fx', 's.\uff50ub', 's.\u200b_x', 's._\u200bx']
     r = rng("c19")
     if t != "quick":
         toks = ["._x", ".pub", ".format", "(", ")", "[", "]", '"{0._x}"', "s", "lst", ",", " ", ".__class__", "getattr", "0"]
